@@ -21,6 +21,8 @@ import (
 // value pools, biased to collisions
 var c11StrPool = []string{"foo", "Foo", "FOO", "foo1", "Foo1", "foo_1", "foo-1", "foo 1", "bar", "Bar", "1", "1st", "2", "10", "", " ", "  ", "_", "-", "a b", "a-b", "a_b", "a.b", "A B",
 	"type", "func", "string", "int", "nil", "true", "Empty", "é", "É", "日本", "x y z", "a/b", "a+b", "+", "#", "$ref", "100%", "q\"x", "a\\tb", "a\\b", "line1\nline2", "tab\there", "'", "`", "\\", "\"", "a\\", "\\n",
+	// a carriage return (a raw string literal would drop it), alone and next to quotes and backslashes
+	"\r", "cr\rlf\n", "reply \"ok\"\r\n", "back\\slash\r",
 	// values whose constant is spelled like a type of the package — another enum's type included
 	"top0", "Top1", "top 2", "holderP0", "HolderP1", "holder-items", "doItParamsMode", "Holder"}
 
